@@ -208,6 +208,29 @@ def run(chk):
     vendor = vendor_from_repo()
     res = vlib.run_pair("c16", cases)
     dis, crash, ofail = common.judge_pairs(chk, "c16", res, oracle_factory(metas, vendor))
+    # the same lists through a whole Ogg stream and vorbisfile (harness only): comment headers of one page up to many (a comment packet of
+    # more than ~130 kB spans three pages or more; the pages inside it carry no granule position), seekable and streaming, any read size
+    vcases = []
+    for j, (ne, ln) in enumerate([(0, 0), (1, 10), (30, 0), (1, 70000), (1, 140000), (1, 300000), (4000, 60), (3, 100000), (2500, 0), (1, 200000)]
+                                 + ([] if chk.tier == "quick" else [(chk.rng.randrange(1, 6000), chk.rng.choice([0, 20, 300])) for _ in range(40)]
+                                    + [(chk.rng.randrange(1, 4), chk.rng.randrange(60000, 600000)) for _ in range(20)])):
+        vcases.append(["case %d" % (800000 + j), "vfround %d %d %d %d %d" % (chk.rng.randrange(1, 99999), ne, ln, j % 2 if j < 10 else chk.rng.randint(0, 1),
+                                                                             chk.rng.choice([4096, 513, 100000]))])
+    vres = vlib.run_harness_only("c16", vcases, variant="san", timeout=1200)
+    vpages = {}
+    for r in vres:
+        if r["c"] is None or (r["rc_c"] != 0 and r["err_c"]):
+            crash.append(r)
+            continue
+        line = next((l for l in r["c"] if l.startswith("vfround ")), "vfround missing")
+        f = dict(x.split("=", 1) for x in line.split(" ")[1:] if "=" in x)
+        want = r["ops"][1].split(" ")[2]
+        if f.get("rc") != "0" or f.get("same") != "1" or f.get("n") != want or (r["ops"][1].split(" ")[4] == "1" and f.get("total") != "3000"):
+            r["m"] = None
+            ofail.append((r, "vorbisfile: a comment list written by the encoder is not read back through ov_open_callbacks/ov_comment: " + line))
+        vpages[f.get("hdrpages", "?")] = vpages.get(f.get("hdrpages", "?"), 0) + 1
+        chk.note_case(r["ops"][1], True, {"ops": r["ops"], "answer": line})
+    chk.coverage["vorbisfile_roundtrips_by_header_pages"] = vpages
     kinds = {}
     for r in res:
         if r and r["c"]:
@@ -218,7 +241,7 @@ def run(chk):
                           {"ops": [o[:160] for o in r["ops"][:4]], "answer": [l[:160] for l in r["c"][1:4]]})
     chk.coverage["rule"] = ("seeded generator: comment lists (0..3000 entries, 0..300000 bytes, arbitrary bytes, NULs, empty, "
                             "tag-like with case variants), add/add_tag/flush, malformed packets (length fields at remaining±1, "
-                            "2^31, 2^32-1; truncation at every field; framing bit; preamble), queries. distinct = distinct first "
+                            "2^31, 2^32-1; truncation at every field; framing bit; preamble), queries; lists of up to 4000 entries / 300 kB written by the encoder into an Ogg stream (comment header spanning 1..6 pages) and read back through ov_open_callbacks + ov_comment, seekable and streaming. distinct = distinct first "
                             "3 answer lines of the implementation")
     chk.coverage["distribution"] = kinds
     chk.coverage["disagreements"] = len(dis)
